@@ -51,7 +51,12 @@ static size_t hf(const size_t k, const size_t m)
 {
     if (armed && (arm_m == 0 || arm_m == m)
         && (arm_key < 0 || (size_t)arm_key == k)) {
-        const size_t v = arm_max ? SIZE_MAX : m + arm_d;
+        /* "hi": a value >= 2^32 whose low 32 bits are an in-range index (catches a range check done on a narrower type);
+         * "hi2": the in-range index shifted into the high half */
+        const size_t v = arm_max == 1 ? SIZE_MAX
+                       : arm_max == 2 ? (((size_t)1 << 32) + k % m)
+                       : arm_max == 3 ? (((size_t)(k % m + 1)) << 32)
+                       : m + arm_d;
         printf("badcall k=%zu m=%zu ret=%zu\n", k, m, v);
         fflush(stdout);
         return v;
@@ -115,7 +120,9 @@ static void run_case(const struct h_case * c)
         } else if (h_weq(l, 0, "arm")) {
             armed = 1;
             arm_m = a;
-            if (h_weq(l, 2, "max")) {
+            if (h_weq(l, 2, "hi") || h_weq(l, 2, "hi2")) {
+                arm_max = h_weq(l, 2, "hi") ? 2 : 3; arm_d = 0; arm_key = h_int(l, 3);
+            } else if (h_weq(l, 2, "max")) {
                 arm_max = 1; arm_d = 0; arm_key = h_int(l, 3);
             } else {
                 arm_max = 0; arm_d = (size_t)h_u64(l, 3); arm_key = h_int(l, 4);
